@@ -154,6 +154,8 @@ def judge (op : List String) (go : String) : Verdict :=
       let mSt := Struct.sub ta tb
       let tags := ["sub", "sub-" ++ headTag ta, "super-" ++ headTag tb, "r-" ++ bit mIs,
                    (if ta.wf && tb.wf then "wf" else "not-wf")] ++
+        -- the region of `runtime_agrees_kindstable_partial`: run-time relation = checker's relation
+        (if ta.wf && tb.wf && ta.noAny && kindStable ta then ["rt-thm"] else []) ++
         (if mIs && !mEq then ["!nt"] else [])
       let eq := fieldOf go "eq"; let seq := fieldOf go "seq"; let rt := fieldOf go "rt"
       let is := fieldOf go "is"; let chk := fieldOf go "chk"
